@@ -192,6 +192,25 @@ def scenarios(api):
     obs["8.recv-after-peer-close"] = attempt(lambda: s.recv(10))
     s.close()
     ls.close()
+    # 13. the client resets the connection (SO_LINGER 0) while it still sits in the listen backlog
+    import struct
+    ls = api.socket()
+    ls.bind(("127.0.0.1", 0))
+    ls.listen(5)
+    c = api.socket()
+    c.connect(ls.getsockname())
+    c.setsockopt(real_socket.SOL_SOCKET, real_socket.SO_LINGER, struct.pack("ii", 1, 0))
+    c.close()
+    api.settle()
+    ls.settimeout(1)
+    r = attempt(lambda: ls.accept())
+    obs["13.accept-after-reset-in-backlog"] = r[0]
+    if r[0] == "ok":
+        s2 = r[1][0]
+        obs["13.getpeername-after-reset"] = attempt(lambda: s2.getpeername())
+        obs["13.recv-after-reset"] = attempt(lambda: s2.recv(10))
+        s2.close()
+    ls.close()
     # 11. UDP
     a = api.socket(real_socket.AF_INET, real_socket.SOCK_DGRAM)
     b = api.socket(real_socket.AF_INET, real_socket.SOCK_DGRAM)
@@ -220,6 +239,77 @@ def scenarios(api):
     return obs
 
 
+class Forker(object):
+    """the call shape rpyc's ForkingServer uses: `pid = os.fork()` first thing in _accept_method(self, sock)"""
+
+    def __init__(self, api, os_mod):
+        self.api = api
+        self.os = os_mod
+        self.clients = set()
+        self.listener = None
+        self.pids = []
+
+    def _accept_method(self, sock):
+        pid = self.os.fork()
+        if pid == 0:
+            try:
+                self.listener.close()
+                self.clients.clear()
+                while True:
+                    d = sock.recv(100)
+                    if not d or d == b"quit":
+                        break
+                    sock.send(b"child:" + d)
+            finally:
+                self.os._exit(0)
+        else:
+            self.pids.append(pid)
+            sock.close()
+            self.clients.discard(sock)
+
+
+def fork_scenario(api, os_mod):
+    obs = {}
+    f = Forker(api, os_mod)
+    ls = api.socket()
+    ls.bind(("127.0.0.1", 0))
+    ls.listen(5)
+    f.listener = ls
+    addr0 = ls.getsockname()
+    c = api.socket()
+    c.connect(addr0)
+    ls.settimeout(2)
+    s, _ = ls.accept()
+    f.clients.add(s)
+    f._accept_method(s)
+    api.settle()
+    # the parent closed its copy: the connection lives on in the child
+    c.settimeout(2)
+    c.send(b"one")
+    api.settle()
+    obs["f.served-by-child-after-parent-closed-its-copy"] = attempt(lambda: c.recv(100))
+    # closing the parent's listener does not touch the child's connection
+    ls.close()
+    api.settle()
+    c.send(b"two")
+    api.settle()
+    obs["f.still-served-after-parent-closed-listener"] = attempt(lambda: c.recv(100))
+    k = api.socket()
+    obs["f.listener-really-closed"] = attempt(lambda: k.connect(addr0))
+    k.close()
+    r = attempt(lambda: os_mod.waitpid(-1, os_mod.WNOHANG))
+    obs["f.waitpid-while-child-runs"] = r
+    c.send(b"quit")
+    api.settle()
+    api.settle()
+    obs["f.eof-after-child-exit"] = attempt(lambda: c.recv(100))
+    r = attempt(lambda: os_mod.waitpid(-1, os_mod.WNOHANG))
+    obs["f.waitpid-reaps-child"] = (r[0], (r[1][0] == f.pids[0], r[1][1]) if r[0] == "ok" else r[1])
+    obs["f.waitpid-no-children"] = attempt(lambda: os_mod.waitpid(-1, os_mod.WNOHANG))
+    c.close()
+    return obs
+
+
 def run_sim():
     from mc import env
     env.install_sim()
@@ -229,6 +319,10 @@ def run_sim():
     def main():
         api = SimAPI()
         box["obs"] = scenarios(api)
+        from mc import simos
+        simos.reset_kernel()
+        simos.reset_procs()
+        box["obs"].update(fork_scenario(api, simos.sim_os))
     sch = S.Scheduler((), sync_points=False, io_points=False, horizon=1000)
     sch.run(main)
     if sch.outcome != "done" or sch.threads[0].exc is not None:
@@ -241,7 +335,9 @@ def run_real():
     env.import_rpyc()
     api = RealAPI()
     try:
-        return scenarios(api)
+        obs = scenarios(api)
+        obs.update(fork_scenario(api, os))
+        return obs
     finally:
         api.cleanup()
 
